@@ -1045,6 +1045,59 @@ def nested_check(ctx, rng, case, path, rc, rp, dn, depth, budget):
     return True
 
 
+def leg_c_cache_derived(ctx, rng, n):
+    """arrays DERIVED from a cache-enabled array (copy constructor with and without a new fill value, copy.copy, deepcopy,
+    astype, unary/binary results) after the source's cache has been warmed: every reshape / transpose / tocsr of the
+    derived array must equal the same call on the derivation of an identical array that never had a cache"""
+    import sparse
+
+    derivs = {
+        "COO(x)": lambda x, v: sparse.COO(x),
+        "COO(x,fill_value=v)": lambda x, v: sparse.COO(x, fill_value=v),
+        "copy.copy": lambda x, v: copy.copy(x),
+        "copy.deepcopy": lambda x, v: copy.deepcopy(x),
+        "x.copy()": lambda x, v: x.copy(),
+        "astype(same)": lambda x, v: x.astype(x.dtype),
+        "astype(float)": lambda x, v: x.astype(np.float64),
+        "x+v": lambda x, v: x + v,
+        "-x": lambda x, v: -x,
+        "asformat(coo)": lambda x, v: x.asformat("coo"),
+        "sparse.asarray": lambda x, v: sparse.asarray(x),
+        "full_like-fill": lambda x, v: sparse.COO(x.coords, x.data, x.shape, fill_value=v, has_duplicates=False, sorted=True),
+    }
+    for k in range(n):
+        shp = gen.shape(rng, 2, 4, extents=[1, 2, 2, 3, 3, 4], max_size=120)
+        fill = int(rng.choice([0, 0, 2]))
+        d = gen.dense(rng, shp, fill)
+        plain = sparse.COO.from_numpy(d, fill_value=fill)
+        cached = sparse.COO.from_numpy(d, fill_value=fill)
+        cached.enable_caching()
+        pool = call_pool(rng, shp)
+        calls = [pool[int(i)] for i in rng.choice(len(pool), size=min(len(pool), 6), replace=False)]
+        for kind, key, raw, _ in calls:  # warm the source's cache
+            outcome(lambda: do_call(cached, kind, raw))
+        v = int(rng.choice([5, -3, 1]))
+        for name, f in derivs.items():
+            case = {"shape": list(shp), "fill": fill, "dense": d.tolist(), "derive": name, "v": v,
+                    "calls": [[c[0], c[2].tolist() if isinstance(c[2], np.ndarray) else c[2]] for c in calls]}
+            ctx.case(f"C:cache-derived:{name}", case, nontrivial=True)
+            w0, wd = outcome(lambda: f(plain, v))
+            g0, gd = outcome(lambda: f(cached, v))
+            if w0 != g0:
+                ctx.fail("C", "cache-derived", case, f"{name}: from the cache-enabled array {_short(g0)}; from the plain one {_short(w0)}",
+                         finding=findings.classify(PID, "cached", case, name))
+                continue
+            if g0[0] != "ok":
+                continue
+            for i, (kind, key, raw, _) in enumerate(calls):
+                want, _w = outcome(lambda: do_call(wd, kind, raw))
+                got, _g = outcome(lambda: do_call(gd, kind, raw))
+                if want != got:
+                    detail = f"{name} then call {case['calls'][i]}: derived from the cache-enabled array {_short(got)}; from the plain one {_short(want)}"
+                    ctx.fail("C", "cache-derived", dict(case, step=i), detail, finding=findings.classify(PID, "cached", case, detail))
+                    break
+
+
 def leg_c_cached(ctx, rng, n):
     import sparse
 
@@ -1158,6 +1211,7 @@ def run(ctx):
     leg_a_alias(ctx, rng, (3 if ctx.quick else 100) * boost)
     leg_c_unchanged(ctx, rng, (30 if ctx.quick else 3000) * boost)
     leg_c_cached(ctx, rng, (200 if ctx.quick else 6000) * boost)
+    leg_c_cache_derived(ctx, rng, (25 if ctx.quick else 600) * boost)
     ctx.cov["rule"] = (
         "A:cache = one random call sequence (1..40 calls drawn from a pool of <=6 permutations, <=6 reshape targets, tocsr, tocsc, "
         "raw argument forms varied) on one cache-enabled COO array (root or a cache-enabled result), compared with the model after every call; "
